@@ -30,7 +30,7 @@ from vlib.c19_decode import KEEPALIVE, NOTIFICATION, OPEN, ROUTE_REFRESH, SESSIO
 from vlib.refwire import build, codec
 from vlib.refwire import strategies as ws
 
-SESS = [{k: s[k] for k in ('asn4', 'families', 'addpath', 'peer_as')} for s in SESSIONS]
+SESS = [{k: s[k] for k in ('asn4', 'families', 'addpath', 'peer_as')} for s in SESSIONS]  # refwire.strategies session descriptions
 NS = len(SESS)
 
 # ---------------------------------------------------------------------------- byte-level helpers (also used by the oracle)
@@ -250,6 +250,9 @@ def new_dual_block(draw, with_as4: bool = False) -> list[bytes]:
         tlvs.append(build.attribute(0xC0, 32, struct.pack('!LLL', 65000, draw(st.integers(0, 3)), 7)))
     if draw(st.integers(0, 4)) == 0:
         tlvs.append(build.attribute(0xC0, 0x63, draw(st.sampled_from([b'', b'\x01', b'\xde\xad']))))
+    if draw(st.integers(0, 3)) == 0:
+        # AIGP (RFC 7311) is only accepted where the neighbor is configured for it
+        tlvs.append(build.attribute(0x80, 26, b'\x01\x00\x0b' + struct.pack('!Q', draw(st.sampled_from([0, 10, 2**40])))))
     return tlvs
 
 
